@@ -110,7 +110,16 @@ package verifkit
 import (
 	"fmt"
 	"reflect"
+	"unsafe"
 )
+
+// acc gives read / write access to a field of an addressable struct whether it is exported or not
+func acc(v reflect.Value) reflect.Value {
+	if v.CanInterface() || !v.CanAddr() {
+		return v
+	}
+	return reflect.NewAt(v.Type(), unsafe.Pointer(v.UnsafeAddr())).Elem()
+}
 
 type stringer string
 
@@ -187,8 +196,8 @@ func Fill(v reflect.Value, n *int) {
 		v.Set(m)
 	case reflect.Struct:
 		for i := 0; i < v.NumField(); i++ {
-			if v.Field(i).CanSet() {
-				Fill(v.Field(i), n)
+			if f := acc(v.Field(i)); f.CanSet() {
+				Fill(f, n)
 			}
 		}
 	case reflect.Pointer:
@@ -436,14 +445,14 @@ func checkPartialCopy(checks *int, fail0 func(string, ...any), pv reflect.Value,
 		*checks++
 		if om[f.Name] {
 			if !out.Field(i).IsZero() {
-				fail("omitted field %s is not zero in the result: %v", f.Name, out.Field(i).Interface())
+				fail("omitted field %s is not zero in the result: %v", f.Name, acc(out.Field(i)).Interface())
 			}
 			continue
 		}
-		src := pv.Elem().FieldByName(f.Name)
+		src := acc(pv.Elem().FieldByName(f.Name))
 		if _, isReplaced := replaced[f.Name]; isReplaced {
 			// compare field by field by name
-			dst := out.Field(i)
+			dst := acc(out.Field(i))
 			for src.Kind() == reflect.Pointer && !src.IsNil() {
 				src = src.Elem()
 			}
@@ -460,8 +469,8 @@ func checkPartialCopy(checks *int, fail0 func(string, ...any), pv reflect.Value,
 			}
 			continue
 		}
-		if !reflect.DeepEqual(src.Interface(), out.Field(i).Interface()) {
-			fail("retained field %s: %v in the source, %v in the result", f.Name, src.Interface(), out.Field(i).Interface())
+		if !reflect.DeepEqual(src.Interface(), acc(out.Field(i)).Interface()) {
+			fail("retained field %s: %v in the source, %v in the result", f.Name, src.Interface(), acc(out.Field(i)).Interface())
 		}
 	}
 }
@@ -533,6 +542,20 @@ func CheckValue(checks *int, fails *[]string, i int, got, want any) {
 	}
 	if !EqualNilEmpty(reflect.ValueOf(got), reflect.ValueOf(want)) {
 		*fails = append(*fails, fmt.Sprintf("%d: evaluates to %#v, the original is %#v", i, got, want))
+	}
+}
+
+// CheckEqualCopy: DeepCopy of the given (hand-built) value is deeply equal to it.
+func CheckEqualCopy(checks *int, fails *[]string, name string, ptr any) {
+	*checks++
+	m := reflect.ValueOf(ptr).MethodByName("DeepCopy")
+	if !m.IsValid() {
+		*fails = append(*fails, name+": no DeepCopy method")
+		return
+	}
+	res := m.Call(nil)[0]
+	if !reflect.DeepEqual(ptr, res.Interface()) {
+		*fails = append(*fails, fmt.Sprintf("%s: the copy is not deeply equal to the original: original %#v, copy %#v", name, reflect.ValueOf(ptr).Elem().Interface(), res.Elem().Interface()))
 	}
 }
 
